@@ -15,27 +15,31 @@ namespace C11
 open Model.Batch Lemmas.Batch Spec.Batch
 
 /-- `_create` on a fresh connection to `db0` -/
-def run (ct : ConvTable) (fault : Option Nat) (p : Plan) (db0 : Db) : Run × Option Err :=
-  create ct fault p (Run.start (Conn.fresh db0))
+def run (ct : ConvTable) (fault : Option Nat) (p : Plan) (db0 : Db) (mode : ConnMode := .pysqliteLegacy) :
+    Run × Option Err :=
+  create ct fault p (Run.start (Conn.start mode db0))
 
 /-- what a fresh connection sees afterwards -/
-def final (ct : ConvTable) (fault : Option Nat) (commitOnError : Bool) (p : Plan) (db0 : Db) : Db :=
-  (finish commitOnError (run ct fault p db0)).committed
+def final (ct : ConvTable) (fault : Option Nat) (commitOnError : Bool) (p : Plan) (db0 : Db)
+    (mode : ConnMode := .pysqliteLegacy) : Db :=
+  (finish commitOnError (run ct fault p db0 mode)).committed
 
 /-- the failure came at or before `DROP` of the original: the rename never reached the cursor -/
 def Early (x : Run × Option Err) : Prop := Stmt.renameTmp ∉ x.1.trace
 
 instance (x : Run × Option Err) : Decidable (Early x) := by unfold Early; infer_instance
 
-theorem fresh_intact {db0 : Db} {t0 : Tbl} (h : db0.orig = some t0) : Intact t0 (Run.start (Conn.fresh db0)).conn := ⟨h, h⟩
+theorem fresh_intact {db0 : Db} {t0 : Tbl} {mode : ConnMode} (h : db0.orig = some t0) :
+    Intact t0 (Run.start (Conn.start mode db0)).conn := by
+  cases mode <;> exact ⟨h, h⟩
 
 /-- **C11.early (original table).** Whatever fails at or before `DROP` of the original — `CREATE TABLE` of
 the new table or one of its index statements, the copy (injected, or NOT NULL / UNIQUE / CHECK violated by
 existing rows), the `DROP` itself — the original table is afterwards exactly what it was: same
 definition, same indexes, same rows; in both scopes. -/
-theorem early_orig_intact (ct : ConvTable) (fault : Option Nat) (commitOnError : Bool) (p : Plan) (db0 : Db) (t0 : Tbl)
-    (h0 : db0.orig = some t0) (hearly : Early (run ct fault p db0)) :
-    (final ct fault commitOnError p db0).orig = some t0 := by
+theorem early_orig_intact (ct : ConvTable) (fault : Option Nat) (commitOnError : Bool) (p : Plan) (mode : ConnMode) (db0 : Db) (t0 : Tbl)
+    (h0 : db0.orig = some t0) (hearly : Early (run ct fault p db0 mode)) :
+    (final ct fault commitOnError p db0 mode).orig = some t0 := by
   unfold final run at *
   rcases create_intact_or_rename (ct := ct) (fault := fault) (p := p) (fresh_intact h0) with h | h
   · exact finish_intact h
@@ -45,32 +49,32 @@ theorem early_orig_intact (ct : ConvTable) (fault : Option Nat) (commitOnError :
 `DROP` of the original (rename, index creation, `_gather_indexes_from_both_tables`) — the rows are
 retrievable: the original table is there untouched, or a table under the original or the temporary name
 holds exactly the copied rows (one per original row, in order). -/
-theorem retrievable (ct : ConvTable) (fault : Option Nat) (commitOnError : Bool) (p : Plan) (db0 : Db) (t0 : Tbl)
+theorem retrievable (ct : ConvTable) (fault : Option Nat) (commitOnError : Bool) (p : Plan) (mode : ConnMode) (db0 : Db) (t0 : Tbl)
     (h0 : db0.orig = some t0) :
-    Retrievable ct t0 p.feeds (final ct fault commitOnError p db0) := by
+    Retrievable ct t0 p.feeds (final ct fault commitOnError p db0 mode) := by
   unfold final run
   exact finish_retrievable (create_post (ct := ct) (fault := fault) (p := p) (fresh_intact h0)).1
 
 /-- **C11.late.** A failure after the `DROP` of the original leaves all rows retrievable under the original
 or the temporary name. -/
-theorem late (ct : ConvTable) (fault : Option Nat) (commitOnError : Bool) (p : Plan) (db0 : Db) (t0 : Tbl) (e : Err)
-    (h0 : db0.orig = some t0) (_hfail : (run ct fault p db0).2 = some e) (_hlate : ¬ Early (run ct fault p db0)) :
-    Retrievable ct t0 p.feeds (final ct fault commitOnError p db0) :=
-  retrievable ct fault commitOnError p db0 t0 h0
+theorem late (ct : ConvTable) (fault : Option Nat) (commitOnError : Bool) (p : Plan) (mode : ConnMode) (db0 : Db) (t0 : Tbl) (e : Err)
+    (h0 : db0.orig = some t0) (_hfail : (run ct fault p db0 mode).2 = some e) (_hlate : ¬ Early (run ct fault p db0 mode)) :
+    Retrievable ct t0 p.feeds (final ct fault commitOnError p db0 mode) :=
+  retrievable ct fault commitOnError p mode db0 t0 h0
 
 /-- **C11.superset.** Always `rows(orig) ∪ rows(tmp) ⊇ original rows` (row-wise; a copied row stands for the
 original row it was projected from). -/
-theorem superset (ct : ConvTable) (fault : Option Nat) (commitOnError : Bool) (p : Plan) (db0 : Db) (t0 : Tbl)
+theorem superset (ct : ConvTable) (fault : Option Nat) (commitOnError : Bool) (p : Plan) (mode : ConnMode) (db0 : Db) (t0 : Tbl)
     (h0 : db0.orig = some t0) :
-    Superset ct t0 p.feeds (final ct fault commitOnError p db0) :=
-  (retrievable ct fault commitOnError p db0 t0 h0).superset
+    Superset ct t0 p.feeds (final ct fault commitOnError p db0 mode) :=
+  (retrievable ct fault commitOnError p mode db0 t0 h0).superset
 
 /-- **Success.** A run without exception leaves no temporary table, and the table under the original name
 holds exactly the copied rows. -/
-theorem success_no_tmp (ct : ConvTable) (fault : Option Nat) (commitOnError : Bool) (p : Plan) (db0 : Db) (t0 : Tbl)
-    (h0 : db0.orig = some t0) (hok : (run ct fault p db0).2 = none) :
-    (final ct fault commitOnError p db0).tmp = none ∧
-    ∃ t, (final ct fault commitOnError p db0).orig = some t ∧ t.rows = copiedRows ct t0 p.feeds := by
+theorem success_no_tmp (ct : ConvTable) (fault : Option Nat) (commitOnError : Bool) (p : Plan) (mode : ConnMode) (db0 : Db) (t0 : Tbl)
+    (h0 : db0.orig = some t0) (hok : (run ct fault p db0 mode).2 = none) :
+    (final ct fault commitOnError p db0 mode).tmp = none ∧
+    ∃ t, (final ct fault commitOnError p db0 mode).orig = some t ∧ t.rows = copiedRows ct t0 p.feeds := by
   unfold final run at *
   have hr := (create_post (ct := ct) (fault := fault) (p := p) (fresh_intact h0)).2 hok
   obtain ⟨t, ht, hc⟩ := hr.worig
@@ -144,20 +148,20 @@ theorem early_tmp_gone_partial (ct : ConvTable) (p : Plan) (t0 : Tbl) (e : Err)
   unfold run create at *
   rw [hsingle] at hearly ⊢
   simp only [List.map_nil, execAll_single] at hearly ⊢
-  cases hst : step ct none (Run.start (Conn.fresh { orig := some t0, tmp := none })) (.createTmp p.newSchema) with
+  cases hst : step ct none (Run.start (Conn.start .pysqliteLegacy { orig := some t0, tmp := none })) (.createTmp p.newSchema) with
   | mk ra ea =>
     rw [hst] at hearly
     cases ea with
     | some e1 =>
       -- CREATE TABLE itself failed: nothing was created
-      have hs : (step ct none (Run.start (Conn.fresh { orig := some t0, tmp := none })) (.createTmp p.newSchema)).2 = some e1 := by
+      have hs : (step ct none (Run.start (Conn.start .pysqliteLegacy { orig := some t0, tmp := none })) (.createTmp p.newSchema)).2 = some e1 := by
         rw [hst]
       have := (step_err_dbs hs).1
       rw [hst] at this
       simp only at this ⊢
       rw [this]; rfl
     | none =>
-      have hs : (step ct none (Run.start (Conn.fresh { orig := some t0, tmp := none })) (.createTmp p.newSchema)).2 = none := by
+      have hs : (step ct none (Run.start (Conn.start .pysqliteLegacy { orig := some t0, tmp := none })) (.createTmp p.newSchema)).2 = none := by
         rw [hst]
       have hsome : TmpSome ra.conn := by
         obtain ⟨db, hok, hw, _, _⟩ := step_none hs
@@ -198,20 +202,21 @@ table is gone, **unless** the run has the shape of C11-F2 (it ended in a later s
 of C11-F1 (the scope rolls back with the implicit transaction open), or the fault hit the clean-up itself.
 So: a failure of `CREATE TABLE` itself, an injected failure of the `INSERT` (raised before the implicit BEGIN),
 and every failing copy / failing `DROP` under a committing scope leave no temporary table. -/
-theorem early_tmp_gone (ct : ConvTable) (fault : Option Nat) (commitOnError : Bool) (p : Plan) (t0 : Tbl)
-    (hearly : Early (run ct fault p { orig := some t0, tmp := none }))
-    (hF2 : ¬ FailedInCreateTableTail (run ct fault p { orig := some t0, tmp := none }))
-    (hF1 : ¬ RolledBackOpenTxn commitOnError (run ct fault p { orig := some t0, tmp := none }))
-    (hsingle : ¬ CleanupFaulted fault (run ct fault p { orig := some t0, tmp := none })) :
-    (final ct fault commitOnError p { orig := some t0, tmp := none }).tmp = none := by
+theorem early_tmp_gone (ct : ConvTable) (fault : Option Nat) (commitOnError : Bool) (p : Plan) (mode : ConnMode) (t0 : Tbl)
+    (hearly : Early (run ct fault p { orig := some t0, tmp := none } mode))
+    (hF2 : ¬ FailedInCreateTableTail (run ct fault p { orig := some t0, tmp := none } mode))
+    (hF1 : ¬ RolledBackOpenTxn commitOnError (run ct fault p { orig := some t0, tmp := none } mode))
+    (hsingle : ¬ CleanupFaulted fault (run ct fault p { orig := some t0, tmp := none } mode)) :
+    (final ct fault commitOnError p { orig := some t0, tmp := none } mode).tmp = none := by
   unfold final run at *
-  apply create_early_tmp_gone commitOnError (Run.start (Conn.fresh { orig := some t0, tmp := none })) ⟨rfl, rfl⟩ (by unfold Numbered; rfl) hearly
+  apply create_early_tmp_gone commitOnError (Run.start (Conn.start mode { orig := some t0, tmp := none }))
+    (by cases mode <;> exact ⟨rfl, rfl⟩) (by unfold Numbered; rfl) hearly
   · intro ix h; exact hF2 ⟨ix, h⟩
   · cases commitOnError with
     | true => exact .inl rfl
     | false =>
       right
-      cases h : (create ct fault p (Run.start (Conn.fresh { orig := some t0, tmp := none }))).1.conn.inTxn with
+      cases h : (create ct fault p (Run.start (Conn.start mode { orig := some t0, tmp := none }))).1.conn.inTxn with
       | false => rfl
       | true => exact absurd ⟨rfl, h⟩ hF1
   · intro k hk h; exact hsingle ⟨k, hk, h⟩
@@ -225,7 +230,7 @@ theorem early_tmp_left_create_table_tail (ct : ConvTable) (fault : Option Nat) (
     (final ct fault commitOnError p { orig := some t0, tmp := none }).tmp ≠ none := by
   unfold final run FailedInCreateTableTail Early at *
   unfold create at *
-  cases hst : execAll ct fault (Run.start (Conn.fresh { orig := some t0, tmp := none }))
+  cases hst : execAll ct fault (Run.start (Conn.start .pysqliteLegacy { orig := some t0, tmp := none }))
       (.createTmp p.newSchema :: p.tmpIndexes.map .createTmpIndex) with
   | mk r1 e1 =>
     rw [hst] at hearly hshape
@@ -254,12 +259,24 @@ theorem early_tmp_left_rolled_back (ct : ConvTable) (fault : Option Nat) (p : Pl
   unfold final run RolledBackOpenTxn Early at *
   exact create_rolledback_tmp_left rfl hearly hshape.2
 
+/-- **The BEGIN recipe.**  When the whole scope is one real transaction (driver `isolation_level=None`, `BEGIN`
+emitted on SQLAlchemy's `begin` event) and the scope rolls back, *any* failure — early or late, any fault index —
+restores the database exactly: original table, its indexes and rows as before, no temporary table. -/
+theorem explicit_begin_rollback_restores (ct : ConvTable) (fault : Option Nat) (p : Plan) (db0 : Db) (e : Err)
+    (hfail : (run ct fault p db0 .explicitBegin).2 = some e) :
+    final ct fault false p db0 .explicitBegin = db0 := by
+  unfold final run at *
+  have h := create_inTxnOver (ct := ct) (fault := fault) (p := p) (db := db0)
+    (r := Run.start (Conn.start .explicitBegin db0)) ⟨rfl, rfl⟩
+  simp only [finish, hfail, Option.isNone_some, Bool.or_false, Bool.false_eq_true, if_false, Conn.rollback]
+  exact h.2
+
 /-- **C11.early in the property's own words.**  For a fault injected at statement `k ≤ index(DROP original)`
 (`index(DROP original) = number of create_table statements + 1`, i.e. `p.tmpIndexes.length + 2`), schema, indexes
 and rows of the original table are unchanged — in both scopes, whatever else fails naturally. -/
-theorem fault_upto_drop_unchanged (ct : ConvTable) (k : Nat) (commitOnError : Bool) (p : Plan) (db0 : Db) (t0 : Tbl)
+theorem fault_upto_drop_unchanged (ct : ConvTable) (k : Nat) (commitOnError : Bool) (p : Plan) (mode : ConnMode) (db0 : Db) (t0 : Tbl)
     (h0 : db0.orig = some t0) (hk : k ≤ p.tmpIndexes.length + 2) :
-    (final ct (some k) commitOnError p db0).orig = some t0 := by
+    (final ct (some k) commitOnError p db0 mode).orig = some t0 := by
   unfold final run
   exact finish_intact (create_intact_of_fault (fresh_intact h0) rfl rfl hk)
 
@@ -298,6 +315,18 @@ example : RolledBackOpenTxn false (run [] none w_plan1 { orig := some w_t0, tmp 
   exact ⟨rfl, by decide⟩
 example : FailedInCreateTableTail (run [] (some 1) w_plan2 { orig := some w_t0, tmp := none }) :=
   ⟨{ name := "ix__alembic_tmp_t_n1", cols := ["n1"], unique := false }, by decide⟩
+
+/-- the other connection modes are exercised by real failing runs: under AUTOCOMMIT the failing copy leaves no
+temporary table even when the scope "rolls back"; under the BEGIN recipe the rollback restores everything -/
+example : (run [] none w_plan1 { orig := some w_t0, tmp := none } .autocommit).2 = some .notNull ∧
+    (final [] none false w_plan1 { orig := some w_t0, tmp := none } .autocommit).tmp = none ∧
+    (run [] none w_plan1 { orig := some w_t0, tmp := none } .explicitBegin).2 = some .notNull ∧
+    (final [] none false w_plan1 { orig := some w_t0, tmp := none } .explicitBegin) = { orig := some w_t0, tmp := none } := by
+  decide
+
+/-- `transactional_ddl` is a field of the plan that nothing reads: the run is the same for both values -/
+example : run [] none { w_plan1 with transactionalDdl := true } { orig := some w_t0, tmp := none } =
+    run [] none w_plan1 { orig := some w_t0, tmp := none } := rfl
 
 /-- the checker run on the implementation's observation rejects a lost row and a left-over temporary table -/
 example : Spec.Batch.check11 [] w_t0 [] true { orig := some { w_t0 with rows := [] }, tmp := none } ≠ [] := by decide
